@@ -56,6 +56,10 @@ def gen_specs(rng, n, quick):
             # scales only in 2-D: orientation() treats |det| < e^-50 as degenerate, an absolute cut (recorded under C12)
             ks = list(range(-8, 9)) + ([-24, -20] if dim == 2 else [])
             spec["scale"] = 2.0 ** rng.choice(ks)
+        if family == "lattice" and ratio is None and "offset" not in spec and "scale" not in spec and rng.random() < 0.45:
+            # an INTEGER lattice: the coordinates are Python ints (pixel / encoder counts) with a large spacing; the default metric
+            # must treat them like the same floats (integer arithmetic on differences of 1e6..1e7 overflows in degree 3/4)
+            spec["int_coords"] = {2: rng.choice([10 ** 6, 4 * 10 ** 6, 10 ** 7]), 3: rng.choice([30000, 10 ** 5]), 4: 1000}[dim]
         specs.append(spec)
     return specs
 
